@@ -122,14 +122,16 @@ static const char *hx_dir (void) { const char *d = getenv ("HX_DIR"); return d ?
 
 /* deterministic entropy for _create_key_secret */
 static uint64_t hx_seed;
+static int hx_efail;       /* 1: the kernel entropy read fails; 2: the salt read fails (seed token "F1:<seed>" / "F2:<seed>") */
 static unsigned char hx_salt[sizeof (unsigned)];
 int entropy_read (void *buf, size_t buflen, const char **srcp) {
     if (!buf) { errno = EINVAL; return -1; }
+    if (hx_efail == 1) { if (srcp) *srcp = NULL; errno = ENOSYS; return -1; }
     toy_squeeze (hx_seed, buf, buflen);
     if (srcp) *srcp = "harness";
     return (int) buflen;
 }
-int entropy_read_uint (unsigned *up) { if (!up) { errno = EINVAL; return -1; } memcpy (up, hx_salt, sizeof (*up)); return 0; }
+int entropy_read_uint (unsigned *up) { if (!up) { errno = EINVAL; return -1; } if (hx_efail == 2) { errno = ENOSYS; return -1; } memcpy (up, hx_salt, sizeof (*up)); return 0; }
 
 #include "src/mungekey/conf.c"
 #include "src/mungekey/key.c"
@@ -200,7 +202,9 @@ static void do_mk (char **w) {
         if (fd < 0 || write (fd, b, k) != k || fchmod (fd, (mode_t) strtoul (w[2], NULL, 8)) < 0) { puts ("harness-error"); return; }
         close (fd); free (b);
     }
-    hx_seed = strtoull (w[4], NULL, 10);
+    hx_efail = 0;
+    if (w[4][0] == 'F' && w[4][1] && w[4][2] == ':') { hx_efail = w[4][1] - '0'; hx_seed = strtoull (w[4] + 3, NULL, 10); }
+    else hx_seed = strtoull (w[4], NULL, 10);
     n = hx_parse (w[5], &salt);
     memset (hx_salt, 0, sizeof (hx_salt));
     if (n > 0) memcpy (hx_salt, salt, n < (long) sizeof (hx_salt) ? (size_t) n : sizeof (hx_salt));
